@@ -20,6 +20,7 @@ func init() {
 			`R17.3 a freshly read header is acted upon (skip or process) only after it was compared with the expected file index; ` +
 			`R17.4 the series kind that skipFile dispatches on is (re)assigned on every path from reading the header to the skip/process decision. ` +
 			`R17.6 (shared with C03) every cyclic path through the increment of the checkpoint file index stores nil into each pointer field of the checkpoint that the loop body or its callees read (SyncHeader, RsyncCheckpoint, BsdiffCheckpoint), directly or through a callee / deferred call that does so on all its paths. ` +
+			`R17.7 every success return of skipFile is reached through the outcome op.Type == HEY_YOU_DID_IT of a SyncOp read from the stream. ` +
 			`NOT decided: equality of the selected files with full application; that GetTouchedFiles equals the subset size.`,
 		Assumptions: []string{"effects are the Bowl methods GetWriter/Transpose and the lake.Pool methods GetSize/GetReader/GetReadSeeker; module-internal call graph (CHA) for reachability"},
 		Run:         runC17,
@@ -33,6 +34,7 @@ func runC17(c *core.Ctx) {
 	c.Rule("R17.4", "series kind is set from the current header before skipping")
 	c.Rule("R17.5", "the whitelist kept is the caller's, values included")
 	rulePerFileStateCleared(c, "R17.6")
+	ruleSkipEndsAtTheMarker(c, "R17.7")
 	{
 		nSt := 0
 		for _, fn := range c.P.SrcFuncs() {
@@ -634,4 +636,44 @@ func rulePerFileStateCleared(c *core.Ctx, rule string) {
 			"every way round the file loop stores nil into the field (itself, or through a callee or deferred call that always does)",
 			"an iteration of the file loop can leave Checkpoint."+f+" as it found it: after resuming in the middle of a file that the whitelist now skips, the next file of the same kind continues that file's series at that file's offsets").Path = c.P.PathStrings(p)
 	}
+}
+
+// ruleSkipEndsAtTheMarker is R17.7: whatever the kind of the series, it is closed by a SyncOp carrying the
+// end marker (R01.3 makes the writers do that). Skipping a series has read all of it only when that marker
+// has been read: every success return of skipFile is reached through the "is the marker" outcome of a test
+// of the Type of a SyncOp. A skip that stops one message early leaves the marker to be taken for the next
+// file's header.
+func ruleSkipEndsAtTheMarker(c *core.Ctx, rule string) {
+	c.Rule(rule, "a skipped series has been read up to its end marker")
+	skip := c.P.Fn("pwr/patcher", "savingPatcher.skipFile")
+	if skip == nil {
+		c.Missing(rule, "pwr/patcher.(*savingPatcher).skipFile", "not found")
+		return
+	}
+	hey, ok := syncOpTypes(c.P, "SyncOp_")["HEY_YOU_DID_IT"]
+	if !ok {
+		c.Missing(rule, "pwr.SyncOp_HEY_YOU_DID_IT", "not found")
+		return
+	}
+	isOpType := func(v ssa.Value) bool {
+		for _, o := range core.Origins(v) {
+			if b, n, ok := core.FieldOf(o); ok && n == "Type" && strings.HasSuffix(core.TypeName(b.Type()), "pwr.SyncOp") {
+				return true
+			}
+			// through the generated getter
+			if cl, ok := o.(*ssa.Call); ok && strings.HasSuffix(core.CalleeName(cl), "pwr.SyncOp).GetType") {
+				return true
+			}
+		}
+		return false
+	}
+	n := 0
+	for _, rs := range successReturns(skip) {
+		n++
+		okM := hasGuard(rs.Ret, func(g core.Guard) bool { return relHolds(g, token.EQL, isOpType, isConstInt(hey)) })
+		c.Check(okM, rule, core.FnName(skip), "success only after the end marker was read", core.InstrPos(rs.Ret),
+			"the return is reached only through the outcome op.Type == HEY_YOU_DID_IT of a SyncOp read from the stream",
+			"skipFile can succeed without having read the series' closing SyncOp: the marker is still in the stream and the next header read decodes it as a SyncHeader for file 0 ('expected file N, got file 0')")
+	}
+	c.Floor(rule, "success returns of skipFile", n, 1)
 }
